@@ -2,15 +2,18 @@ package main
 
 import (
 	"fmt"
+	"io"
 	"math/big"
 
 	"github.com/tuneinsight/lattigo/v6/core/rlwe"
 	"github.com/tuneinsight/lattigo/v6/multiparty"
+	"github.com/tuneinsight/lattigo/v6/ring"
 	"github.com/tuneinsight/lattigo/v6/ring/ringqp"
 	"github.com/tuneinsight/lattigo/v6/utils"
 
 	"verif/engine"
 	"verif/lib/mp"
+	"verif/lib/rk"
 	"verif/ref"
 	"verif/uni"
 )
@@ -25,6 +28,30 @@ func evkParameters(params rlwe.Parameters, k cfg) (rlwe.EvaluationKeyParameters,
 		lp = params.MaxLevelP()
 	}
 	return rlwe.EvaluationKeyParameters{LevelQ: utils.Pointy(lq), LevelP: utils.Pointy(lp), BaseTwoDecomposition: utils.Pointy(k.b2)}, lq, lp
+}
+
+// altEvkp is the shape of the warm-up run of the history axis: hist 1 a lower one (level 0, other base two),
+// hist 2 the maximal levels with another base two.
+func altEvkp(params rlwe.Parameters, k cfg, hist int) rlwe.EvaluationKeyParameters {
+	_, _, lp := evkParameters(params, k)
+	b2 := 16
+	if k.b2 == 16 {
+		b2 = 7
+	}
+	lq := 0
+	if hist == 2 {
+		lq = params.MaxLevelQ()
+		if lp < params.MaxLevelP() {
+			lp = params.MaxLevelP()
+		} else if lp > 0 {
+			lp = 0
+		}
+	}
+	return rlwe.EvaluationKeyParameters{LevelQ: utils.Pointy(lq), LevelP: utils.Pointy(lp), BaseTwoDecomposition: utils.Pointy(b2)}
+}
+
+func altGalEl(params rlwe.Parameters, g uint64) uint64 {
+	return g * 5 % params.RingQ().NthRoot()
 }
 
 func coverDigits(c *engine.Chooser, g *rlwe.GadgetCiphertext) {
@@ -57,8 +84,12 @@ func freshCiphertext(params rlwe.Parameters, sk *rlwe.SecretKey, lvl int, key ..
 	return ct, want
 }
 
-// automorph applies X -> X^g to integer coefficients in [0,Q_lvl) through ref.Automorphism on every residue.
+// automorph applies X -> X^g to integer coefficients in [0,Q_lvl): through ref.Automorphism on every residue in
+// the standard ring, through lib/rk's unfolded map in the conjugate-invariant ring.
 func automorph(params rlwe.Parameters, lvl int, a []*big.Int, g uint64) []*big.Int {
+	if params.RingType() == ring.ConjugateInvariant {
+		return rk.Auto(ring.ConjugateInvariant, a, g)
+	}
 	mod := params.RingQ().ModuliChain()[:lvl+1]
 	rows := make([][]uint64, len(mod))
 	for i, q := range mod {
@@ -83,6 +114,8 @@ func evkLeaf(c *engine.Chooser, name string, k cfg) {
 		Out = mp.NewParties(params, k.n)
 	}
 	sig := "C14/" + k.proto
+	inst, hist := axes(c)
+	alt := altEvkp(params, k, hist)
 
 	var final *rlwe.GadgetCiphertext // the aggregated share's gadget ciphertext
 	var key *rlwe.EvaluationKey
@@ -91,14 +124,14 @@ func evkLeaf(c *engine.Chooser, name string, k cfg) {
 	var genPanic interface{}
 
 	if k.proto == "evk" {
-		protos := make([]multiparty.EvaluationKeyGenProtocol, k.n)
+		protos := mp.Instances(inst, k.n, func() multiparty.EvaluationKeyGenProtocol { return multiparty.NewEvaluationKeyGenProtocol(params) },
+			func(p multiparty.EvaluationKeyGenProtocol) multiparty.EvaluationKeyGenProtocol { return p.ShallowCopy() })
 		crps := make([]multiparty.EvaluationKeyGenCRP, k.n)
 		shares := make([]multiparty.EvaluationKeyGenShare, k.n)
 		for i := range protos {
-			if i == 0 {
-				protos[i] = multiparty.NewEvaluationKeyGenProtocol(params)
-			} else {
-				protos[i] = protos[0].ShallowCopy()
+			if hist > 0 { // the instance already produced a share of another shape with other keys
+				scratch := protos[i].AllocateShare(alt)
+				_ = protos[i].GenShare(Out.SK[i], In.SK[(i+1)%k.n], protos[i].SampleCRP(mp.CRS(1-k.crs), alt), &scratch)
 			}
 			crps[i] = protos[i].SampleCRP(mp.CRS(k.crs), evkp)
 			shares[i] = protos[i].AllocateShare(evkp)
@@ -126,6 +159,9 @@ func evkLeaf(c *engine.Chooser, name string, k cfg) {
 				err = hopGadget(a.MarshalBinary, r.UnmarshalBinary)
 				return
 			},
+			Stream: func(a multiparty.EvaluationKeyGenShare, wrap func(io.Reader) io.Reader) (multiparty.EvaluationKeyGenShare, error) {
+				return mp.StreamHop[multiparty.EvaluationKeyGenShare](a, wrap)
+			},
 			Flat: flat,
 		}
 		agg, ok := mp.Merge(c, ops, shares, k.search())
@@ -139,14 +175,14 @@ func evkLeaf(c *engine.Chooser, name string, k cfg) {
 		genErr, genPanic = uni.Try(func() error { return protos[0].GenEvaluationKey(agg, crps[0], key) })
 	} else {
 		c.Cover("galEl", fmt.Sprint(k.galEl))
-		protos := make([]multiparty.GaloisKeyGenProtocol, k.n)
+		protos := mp.Instances(inst, k.n, func() multiparty.GaloisKeyGenProtocol { return multiparty.NewGaloisKeyGenProtocol(params) },
+			func(p multiparty.GaloisKeyGenProtocol) multiparty.GaloisKeyGenProtocol { return p.ShallowCopy() })
 		crps := make([]multiparty.GaloisKeyGenCRP, k.n)
 		shares := make([]multiparty.GaloisKeyGenShare, k.n)
 		for i := range protos {
-			if i == 0 {
-				protos[i] = multiparty.NewGaloisKeyGenProtocol(params)
-			} else {
-				protos[i] = protos[0].ShallowCopy()
+			if hist > 0 { // the instance already produced a share of another shape for another Galois element
+				scratch := protos[i].AllocateShare(alt)
+				_ = protos[i].GenShare(In.SK[(i+1)%k.n], altGalEl(params, k.galEl), protos[i].SampleCRP(mp.CRS(1-k.crs), alt), &scratch)
 			}
 			crps[i] = protos[i].SampleCRP(mp.CRS(k.crs), evkp)
 			shares[i] = protos[i].AllocateShare(evkp)
@@ -175,6 +211,9 @@ func evkLeaf(c *engine.Chooser, name string, k cfg) {
 			Hop: func(a multiparty.GaloisKeyGenShare) (r multiparty.GaloisKeyGenShare, err error) {
 				err = hopGadget(a.MarshalBinary, r.UnmarshalBinary)
 				return
+			},
+			Stream: func(a multiparty.GaloisKeyGenShare, wrap func(io.Reader) io.Reader) (multiparty.GaloisKeyGenShare, error) {
+				return mp.StreamHop[multiparty.GaloisKeyGenShare](a, wrap)
 			},
 			Flat: flat,
 		}
